@@ -24,7 +24,11 @@ def run(ctx):
     b = ctx.tlc(sdir, "CovertPolicy.tla", "MC_CovertPolicy_rebind.cfg", timeout=300, count=False)
     if b["inv"] not in ("ResolvedOnce", "DialedIsChecked", "CheckedIsPermitted"):
         raise vlib.InfraError("rebind instance should violate, got %s" % b["inv"])
-    ctx.stage("A", nonvacuity="instance that re-resolves at dial time violates %s" % b["inv"])
+    b2 = ctx.tlc(sdir, "CovertPolicy.tla", "MC_CovertPolicy_fullmatch.cfg", timeout=300, count=False)
+    if b2["inv"] != "CheckedIsPermitted":
+        raise vlib.InfraError("the instance whose patterns must match the whole host should violate CheckedIsPermitted, got %s" % b2["inv"])
+    ctx.stage("A", nonvacuity="instance that re-resolves at dial time violates %s; instance whose domain patterns must match the whole host "
+              "(instead of being searched in it) violates CheckedIsPermitted" % b["inv"])
 
     g = ctx.tlc(sdir, "Gen_CovertPolicy.tla", "Gen_CovertPolicy.cfg", timeout=900, workers=8, count=False)
     if g["inv"]:
